@@ -47,3 +47,42 @@ bool matches(const Json& j, const mj::Value& e, std::string& why) {
 }
 
 } // namespace bv
+
+// ---- building jsoncons values from the binary data model and projecting them back
+namespace bv {
+template <class Json>
+Json build(const mj::Value& e) {
+    using namespace jsoncons;
+    const std::string& k = e[0].str();
+    if (k == "uint") { uint64_t u = 0; be_to_u64(e[1], u); return Json(u); }
+    if (k == "nint") { uint64_t n = 0; be_to_u64(e[1], n); return Json((int64_t)(-1 - (int64_t)n)); }
+    if (k == "bstr") { auto b = bytes_of(e[1]); return Json(byte_string_arg, b); }
+    if (k == "tstr") { auto b = bytes_of(e[1]); return Json(std::string((const char*)b.data(), b.size())); }
+    if (k == "arr") { Json a(json_array_arg); for (auto& x : e[1].a) a.push_back(build<Json>(x)); return a; }
+    if (k == "map") { Json o(json_object_arg); for (auto& kv : e[1].a) { auto kb = bytes_of(kv[0][1]); o.insert_or_assign(std::string((const char*)kb.data(), kb.size()), build<Json>(kv[1])); } return o; }
+    if (k == "bool") return Json(e[1].as_bool());
+    if (k == "null") return Json::null();
+    if (k == "f64") { auto b = bytes_of(e[1]); uint64_t u = 0; for (int i = 0; i < 8; ++i) u = (u << 8) | b[i]; double d; memcpy(&d, &u, 8); return Json(d); }
+    throw std::runtime_error("bv::build: unsupported kind " + k);
+}
+inline mj::Value be_bytes(uint64_t u) { mj::Value a = mj::Value::array(); bool lead = true; for (int i = 7; i >= 0; --i) { int b = (int)((u >> (8 * i)) & 0xff); if (lead && b == 0) continue; lead = false; a.push(b); } return a; }
+inline mj::Value raw(const void* p, size_t n) { mj::Value a = mj::Value::array(); const uint8_t* b = (const uint8_t*)p; for (size_t i = 0; i < n; ++i) a.push((int)b[i]); return a; }
+template <class Json>
+mj::Value project(const Json& j) {
+    using namespace jsoncons;
+    mj::Value r = mj::Value::array();
+    switch (j.type()) {
+        case json_type::null: r.push("null"); break;
+        case json_type::boolean: r.push("bool"); r.push(j.template as<bool>()); break;
+        case json_type::uint64: r.push("uint"); r.push(be_bytes(j.template as<uint64_t>())); break;
+        case json_type::int64: { int64_t v = j.template as<int64_t>(); if (v >= 0) { r.push("uint"); r.push(be_bytes((uint64_t)v)); } else { r.push("nint"); r.push(be_bytes((uint64_t)(-1 - v))); } break; }
+        case json_type::float16: case json_type::float64: { double d = j.template as<double>(); uint64_t u; memcpy(&u, &d, 8); mj::Value a = mj::Value::array(); for (int i = 7; i >= 0; --i) a.push((int)((u >> (8 * i)) & 0xff)); r.push("f64"); r.push(a); break; }
+        case json_type::string: { std::string s = j.template as<std::string>(); if (j.tag() == semantic_tag::bigint || j.tag() == semantic_tag::bigdec || j.tag() == semantic_tag::bigfloat) { r.push("numstr"); r.push((int)j.tag()); r.push(raw(s.data(), s.size())); } else { r.push("tstr"); r.push(raw(s.data(), s.size())); } break; }
+        case json_type::byte_string: { auto v = j.as_byte_string_view(); r.push("bstr"); r.push(raw(v.data(), v.size())); break; }
+        case json_type::array: { r.push("arr"); mj::Value a = mj::Value::array(); for (auto& e : j.array_range()) a.push(project(e)); r.push(a); break; }
+        case json_type::object: { r.push("map"); mj::Value a = mj::Value::array(); for (auto& kv : j.object_range()) { mj::Value p = mj::Value::array(); mj::Value kk = mj::Value::array(); kk.push("tstr"); std::string ks(kv.key()); kk.push(raw(ks.data(), ks.size())); p.push(kk); p.push(project(kv.value())); a.push(p); } r.push(a); break; }
+        default: r.push("other"); break;
+    }
+    return r;
+}
+} // namespace bv
